@@ -17,6 +17,9 @@ from pyplumio.helpers.parameter import ParameterValues
 
 
 # ------------------------------------------------------------------ worlds with every row present
+SUBDEVICES = 2
+
+
 async def full_world(product, tables):
     """an EcoMAX of the given product type holding a parameter for EVERY row of every table"""
     w = World()
@@ -25,11 +28,13 @@ async def full_world(product, tables):
     mix = tables["tables"]["mixerP" if product == pd.PRODUCT_P else "mixerI"]
     thr = tables["tables"]["thermostat"]
     await w.ecomax_params(pd.ecomax_payload(0, [(0, 0, 255)] * len(eco)))
-    await w.mixer_params(pd.mixer_payload(0, [[(0, 0, 255)] * len(mix)]))
-    await w.thermostats_available(1)
+    # TWO mixers and TWO thermostats: the display <-> raw conversion must not depend on the sub-device a number belongs
+    # to (the second thermostat's parameters carry a non-zero slot offset)
+    await w.mixer_params(pd.mixer_payload(0, [[(0, 0, 255)] * len(mix)] * SUBDEVICES))
+    await w.thermostats_available(SUBDEVICES)
     sizes = [r["size"] for r in thr]
     await w.thermostat_params(pd.thermostat_payload(
-        0, len(thr), (0, 0, 255), [[(0, 0, 256 ** r["size"] - 1) for r in thr]], sizes))
+        0, len(thr) * SUBDEVICES, (0, 0, 255), [[(0, 0, 256 ** r["size"] - 1) for r in thr]] * SUBDEVICES, sizes))
     bits = [[False] * 48 for _ in range(7)]
     n = len(tables["schedules"])
     await w.schedules(pd.schedules_payload([(i, 0, (0, 0, 255), bits) for i in range(n)]))
@@ -38,15 +43,17 @@ async def full_world(product, tables):
     return w
 
 
-def rows_of(product, tables):
-    """[(table name, kind, device label, row)] for one product type"""
+def rows_of(product, tables, subdevices=1):
+    """[(table name, kind, device label, row)] for one product type; subdevices > 1: the rows of every mixer / thermostat"""
     P = product == pd.PRODUCT_P
     t = tables["tables"]
     out = []
     out += [("ecomaxP" if P else "ecomaxI", "ecomax", "ecomax", r) for r in t["ecomaxP" if P else "ecomaxI"]]
-    out += [("mixerP" if P else "mixerI", "mixer", "mixer0", r) for r in t["mixerP" if P else "mixerI"]]
+    for k in range(subdevices):
+        out += [("mixerP" if P else "mixerI", "mixer", f"mixer{k}", r) for r in t["mixerP" if P else "mixerI"]]
     if P:
-        out += [("thermostat", "thermostat", "thermostat0", r) for r in t["thermostat"]]
+        for k in range(subdevices):
+            out += [("thermostat", "thermostat", f"thermostat{k}", r) for r in t["thermostat"]]
         out += [("scheduleParams", "schedule", "ecomax", r) for r in t["scheduleParams"]]
         out += [("ecomaxControl", "control", "ecomax", tables["special"]["ecomaxControl"]),
                 ("thermostatProfile", "profile", "ecomax", tables["special"]["thermostatProfile"])]
@@ -117,7 +124,7 @@ async def run_async(ctx, res):
     worlds = {pd.PRODUCT_P: await full_world(pd.PRODUCT_P, tables), pd.PRODUCT_I: await full_world(pd.PRODUCT_I, tables)}
     allrows = []
     for product in (pd.PRODUCT_P, pd.PRODUCT_I):
-        for tname, kind, label, row in rows_of(product, tables):
+        for tname, kind, label, row in rows_of(product, tables, SUBDEVICES):
             dev = worlds[product].device(label)
             p = dev.data.get(row["name"])
             if p is None:
@@ -195,19 +202,20 @@ async def run_async(ctx, res):
             r, sent, after = await write_back(w, p, raw, v, n, kind, row["size"], via)
             rec = dict(what=what, table=tname, row=row["name"], raw=raw, conv=cw, shown=pd.canon_val(v),
                        shown_min=pd.canon_val(vmin), shown_max=pd.canon_val(vmax), result=list(r), sent=sent, after=after,
-                       model_shown=model_disp, kind=kind, via="device.set" if via else "parameter.set")
+                       model_shown=model_disp, kind=kind, via="device.set" if via else "parameter.set", device=label)
             records.append(rec)
             toraw_reqs.append(f"toraw {cw} {pd.enc_val(v)}")
     model_back = driver_batch(toraw_reqs)
     seen_samples = set()
     for rec, mb in zip(records, model_back):
         raw, row = rec["raw"], rec["row"]
-        fp = (rec["conv"], rec["table"] if rec["what"] == "row" else "", row if rec["what"] == "row" else "", raw)
+        fp = (rec["conv"], rec["table"] if rec["what"] == "row" else "", row if rec["what"] == "row" else "",
+              rec["device"] if rec["what"] == "row" else "", raw)
         res.case(fp, nontrivial=True)
         res.count("part:" + rec["what"])
         res.count("conv:" + rec["conv"].split()[0] + ("" if rec["conv"].split()[1] == "1" else "*0.1") +
                   ("+off" if rec["conv"].split()[3] != "0" else ""))
-        inp = dict(table=rec["table"], row=row, raw=raw, conv=rec["conv"], via=rec["via"])
+        inp = dict(table=rec["table"], row=row, raw=raw, conv=rec["conv"], via=rec["via"], device=rec["device"])
         # correspondence: displayed forms
         is_switch = rec["conv"].startswith("sw")
         exp_min = "s:off" if is_switch else rec["model_shown"]
@@ -261,7 +269,7 @@ async def run_async(ctx, res):
                     sent = sent[3]
                 brecs.append(dict(table=tname, row=row["name"], raw=raw, triple=[cur, lo, hi], conv=cw,
                                   displayed=pd.canon_val(disp), dmin=pd.canon_val(dmin), dmax=pd.canon_val(dmax),
-                                  result=list(r), sent=sent, after=p.values.value))
+                                  result=list(r), sent=sent, after=p.values.value, device=label))
                 breqs.append(f"display {cw} {lo}")
                 breqs.append(f"display {cw} {hi}")
                 breqs.append(f"c06set {cw} {cur} {lo} {hi} {pd.enc_val(disp)} 1")
@@ -271,9 +279,9 @@ async def run_async(ctx, res):
         cur, lo, hi = rec["triple"]
         raw = rec["raw"]
         inside = lo <= raw <= hi
-        res.case(("bounds", rec["conv"], rec["table"], rec["row"], tuple(rec["triple"]), raw), True)
+        res.case(("bounds", rec["conv"], rec["table"], rec["row"], rec["device"], tuple(rec["triple"]), raw), True)
         res.count("bounds:" + ("inside" if inside else "outside"))
-        inp = dict(table=rec["table"], row=rec["row"], triple=rec["triple"], raw=raw, conv=rec["conv"])
+        inp = dict(table=rec["table"], row=rec["row"], triple=rec["triple"], raw=raw, conv=rec["conv"], device=rec["device"])
         if (rec["dmin"], rec["dmax"]) != (mlo, mhi):
             res.fail("spec", inp, dict(min_value=mlo, max_value=mhi), dict(min_value=rec["dmin"], max_value=rec["dmax"]),
                      "displayed minimum/maximum are not the displayed forms of the raw bounds")
@@ -294,7 +302,7 @@ async def run_async(ctx, res):
     rreqs, rrecs = [], []
     st = {pd.PRODUCT_P: {}, pd.PRODUCT_I: {}}
     for product, tname, kind, label, row, p0 in allrows:
-        if row["switch"] or kind == "control":
+        if row["switch"] or kind == "control" or label.endswith("1"):     # (reports are fed for sub-device 0)
             continue
         if quick and kind in ("ecomax", "schedule") and rng.random() < 0.6:
             continue
@@ -337,6 +345,54 @@ async def run_async(ctx, res):
         if obs != want:
             res4.fail("spec", inp, want, dict(result=rec["result"], sent=rec["sent"], value_after=rec["after"]),
                      "after a re-report: displayed form of a raw value inside the last reported bounds refused / outside them accepted")
+    # ---- 5. the queued set request is serialised LATER (as the producer does when it finally writes it), after a
+    # periodic controller report that still carries the old value has been handled: the request on the wire must
+    # carry the raw value of the displayed value that was written, for every parameter class (schedule parameters
+    # build their request from OTHER parameters of the device: switch + parameter + bitmap)
+    import asyncio
+    loop = asyncio.get_running_loop()
+    for product, tname, kind, label, row, p0 in allrows:
+        if kind == "control" or label.endswith("1"):
+            continue
+        if quick and ((kind == "ecomax" and rng.random() < 0.8) or (kind == "schedule" and rng.random() < 0.5)):
+            continue
+        w = worlds[product]
+        n = 256 ** row["size"]
+        cw = pd.conv_words(kind, row)
+        top = 2 if row["switch"] else min(n, 250)
+        raw = rng.randrange(top)
+        other = (raw + 1 + rng.randrange(top - 1)) % top
+        stale = (other, 0, top - 1)
+        await feed_triple(w, tables, tname, kind, row, (raw, 0, top - 1), st[product])
+        disp = w.device(label).data[row["name"]].value
+        await feed_triple(w, tables, tname, kind, row, stale, st[product])
+        p = w.device(label).data[row["name"]]
+        w.drain()
+        task = loop.create_task(p.set(disp, retries=1, timeout=5.0))
+        await pd.settle()
+        queued = w.drain()                          # frame objects, not yet serialised
+        await feed_triple(w, tables, tname, kind, row, stale, st[product])     # the old value once more
+        frames = []
+        for fr in queued:
+            try:
+                frames.append(pd.canon_frame(fr))   # serialised now
+            except Exception as e:  # noqa: BLE001
+                frames.append(("unencodable", type(e).__name__))
+        task.cancel()
+        await pd.settle()
+        w.drain()
+        setframes = [f for f in frames if f[0] == "unencodable" or f[0].startswith("Set")]
+        sent = request_raw(kind, setframes, row["size"])
+        if kind == "schedule" and isinstance(sent, tuple):
+            sent = sent[2] if row["name"].endswith("_schedule_switch") else sent[3]
+        res.case(("late-serialisation", cw, tname, row["name"], raw, other), True)
+        res.count("late-serialisation:" + kind)
+        if sent != raw:
+            res4.fail("spec", dict(table=tname, row=row["name"], conv=cw, held=list(stale), raw=raw, written=pd.canon_val(disp),
+                                   order="set(displayed) ; report of the old value handled ; queued request serialised"),
+                      f"transmit:{raw}", dict(sent=sent, frames=[list(f) for f in frames]),
+                      "the set request queued by writing back the displayed value does not carry that raw value once a stale report "
+                      "was handled before the request is serialised")
     res.failures = res4.failures + res.failures
     for w in worlds.values():
         await w.shutdown()
@@ -411,8 +467,8 @@ def replay(ctx):
         tables = pd.load_tables()
         for product in (pd.PRODUCT_P, pd.PRODUCT_I):
             w = await full_world(product, tables)
-            for tname, kind, label, row in rows_of(product, tables):
-                if tname == inp["table"] and row["name"] == inp["row"]:
+            for tname, kind, label, row in rows_of(product, tables, SUBDEVICES):
+                if tname == inp["table"] and row["name"] == inp["row"] and label == inp.get("device", label):
                     p = w.device(label).data[row["name"]]
                     n = 256 ** row["size"]
                     raw = inp["raw"]
